@@ -71,6 +71,7 @@ class Prop:
                 nfin = 5 - ninf
             shape = [r.choice([1, 2, 2, 3] if nfin < 4 else [1, 2, 2]) for _ in range(nfin)]
             roots.append({"shape": shape, "ninf": ninf, "p_absent": r.choice([0.0, 0.2, 0.5]), "p_none": r.choice([0.0, 0.0, 0.0, 0.15]),
+                          "p_exotic": r.choice([0.0, 0.0, 0.3, 0.8]),
                           "vseed": r.randrange(1 << 30), "pre": []})
         # pre-cached entries
         for s, root in enumerate(roots):
@@ -271,10 +272,12 @@ class Prop:
             rr = np.random.default_rng(root["vseed"])
             absent = rr.random(n) < root["p_absent"]
             none_valued = rr.random(n) < root.get("p_none", 0.0)  # None is a perfectly legal element value
+            exotic = rr.random(n) < root.get("p_exotic", 0.0)  # ... and so are arrays of any shape, sequences, numpy scalars, strings
             vals = {}
             for k, index in enumerate(np.ndindex(*full) if full else [()]):
                 flat.append((s, tuple(int(i) for i in index)))
-                vals[tuple(int(i) for i in index)] = zero if absent[k] else (None if none_valued[k] else Tag(s, index, "E"))
+                vals[tuple(int(i) for i in index)] = zero if absent[k] else (None if none_valued[k] else
+                                                                    self._exotic(rr, k) if exotic[k] else Tag(s, index, "E"))
             pdata = {}
             for index, is_zero in root["pre"]:
                 index = tuple(index)
@@ -640,6 +643,25 @@ class Prop:
     def _show(x):
         r = repr(x)
         return r if len(r) < 160 else r[:160] + "..."
+
+    @staticmethod
+    def _exotic(rr, k):
+        kind = int(rr.integers(0, 8))
+        if kind == 0:
+            return rr.normal(size=(int(rr.integers(1, 4)), int(rr.integers(1, 4))))  # a block matrix, what the library is used with
+        if kind == 1:
+            return np.array(float(k))  # 0-d array
+        if kind == 2:
+            return np.empty((0,))
+        if kind == 3:
+            return [k, k + 1]
+        if kind == 4:
+            return (k, "t")
+        if kind == 5:
+            return np.float64(k + 0.5)
+        if kind == 6:
+            return f"element-{k}"
+        return rr.normal(size=(int(rr.integers(1, 4)),))
 
     def _cmp_array(self, desc, res, sel, flat, values, zero, fail, bump):
         if not isinstance(res, np.ma.MaskedArray):
